@@ -3,6 +3,7 @@
    local time is l. *)
 From EAS Require Import Base Civil Time TimeFacts Replace ReplaceFacts.
 From EASGen Require Import Generated.
+From EAS Require Import TimeOrder Filters Producers ProdEarliest ProdEarliest2.
 
 (* for EVERY time-zone table: candidates are exactly the instants showing that wall-clock time *)
 Theorem C06_candidates_spec : forall z l i, In i (candidates z l) <-> to_local z i = l.
@@ -63,3 +64,92 @@ Theorem C06_repeated :
     end.
 Proof. exact replace_repeated. Qed.
 Print Assumptions C06_repeated.
+
+(* ---- additions to props/C06.v; needs in the header:
+   From EAS Require Import TimeOrder Filters Producers ProdEarliest ProdEarliest2.  ---- *)
+
+(* order facts of the local clock, EVERY table *)
+Theorem C06_offset_range : forall z i, off_lo z <= offset_at z i <= off_hi z.
+Proof. exact offset_range. Qed.
+Print Assumptions C06_offset_range.
+
+Theorem C06_local_order : forall z a b, to_local z a + spread z * NS < to_local z b -> a < b.
+Proof. exact local_order. Qed.
+Print Assumptions C06_local_order.
+
+Theorem C06_local_mono_weak : forall z a b, a <= b -> to_local z a <= to_local z b + spread z * NS.
+Proof. exact local_mono_weak. Qed.
+Print Assumptions C06_local_mono_weak.
+
+(* where a run of a local day lies, EVERY table: it shows the configured wall-clock time of that day, or the
+   time is skipped and the run is the configured time resolved with the offset after / before the change
+   (earlier / later), or the time is skipped and the run shows the k-th whole minute after the configured
+   minute, k <= 121 (after) *)
+Theorem C06_day_results_cases :
+  forall z tr day u, In u (day_results z tr day) ->
+    to_local z u = day * DAY + tr_tod tr \/
+    (candidates z (day * DAY + tr_tod tr) = [] /\
+     exists ob oa, gap_of z (day * DAY + tr_tod tr) = Some (ob, oa) /\
+       ((tr_sk tr = SkEarlier /\ u = day * DAY + tr_tod tr - oa * NS) \/
+        (tr_sk tr = SkLater /\ u = day * DAY + tr_tod tr - ob * NS))) \/
+    (candidates z (day * DAY + tr_tod tr) = [] /\ tr_sk tr = SkAfter /\
+     exists k, 1 <= k <= after_search_minutes /\
+       to_local z u = day * DAY + tr_tod tr / MINUTE * MINUTE + k * MINUTE).
+Proof. exact day_results_cases. Qed.
+Print Assumptions C06_day_results_cases.
+
+Theorem C06_day_results_local :
+  forall z tr day u, In u (day_results z tr day) ->
+    - (spread z * NS) <= to_local z u - (day * DAY + tr_tod tr) <= day_dev z.
+Proof. exact day_results_local. Qed.
+Print Assumptions C06_day_results_local.
+
+Theorem C06_exact_result_day :
+  forall z tr day u, wf_tr tr -> to_local z u = day * DAY + tr_tod tr ->
+    local_day (to_local z u) = day /\ local_tod (to_local z u) = tr_tod tr.
+Proof. exact exact_result_day. Qed.
+Print Assumptions C06_exact_result_day.
+
+(* an instant is the run of at most one local day, the runs of a day are listed in increasing order *)
+Theorem C06_day_results_disjoint :
+  forall z tr d d' u, spread z <= 4 * 3600 ->
+    In u (day_results z tr d) -> In u (day_results z tr d') -> d = d'.
+Proof. exact day_results_disjoint. Qed.
+Print Assumptions C06_day_results_disjoint.
+
+Theorem C06_day_results_sorted : forall z tr day, strictly_ascending (day_results z tr day).
+Proof. exact day_results_sorted. Qed.
+Print Assumptions C06_day_results_sorted.
+
+(* ONCE PER DAY: the answer of an unfiltered time-of-day trigger is the least element after dt of the union
+   over ALL local days of the day's runs (0, 1 or 2 as the policy table says) *)
+Theorem C06_once_per_day :
+  forall z tr dt v, wf_tz_b z = true -> wf_tr tr ->
+    next_time z tr None dt = Ok v -> earliest_after (occ_day z tr) dt v.
+Proof. exact once_per_day. Qed.
+Print Assumptions C06_once_per_day.
+
+Theorem C06_once_per_day_no_omission :
+  forall z tr dt v, wf_tz_b z = true -> wf_tr tr -> next_time z tr None dt = Ok v ->
+    forall day u, In u (day_results z tr day) -> ~ (dt < u < v).
+Proof. exact once_per_day_no_omission. Qed.
+Print Assumptions C06_once_per_day_no_omission.
+
+(* the chain a recurring job follows enumerates that union: increasing, nothing omitted, nothing repeated *)
+Theorem C06_once_per_day_chain :
+  forall E tr, wf_tz_b (pz E) = true -> wf_tr tr ->
+    forall n st dt, enumerates (occ_day (pz E) tr) dt (chain E (PTime tr None) st dt n).
+Proof. exact once_per_day_chain. Qed.
+Print Assumptions C06_once_per_day_chain.
+
+Theorem C06_enumerates_sorted :
+  forall (P : Z -> Prop) l prev, enumerates P prev l ->
+    Sorted.StronglySorted Z.lt (prev :: oks l) /\ forall u, In u (oks l) -> P u.
+Proof. exact enumerates_sorted. Qed.
+Print Assumptions C06_enumerates_sorted.
+
+Theorem C06_enumerates_complete :
+  forall (P : Z -> Prop) l prev u, enumerates P prev l ->
+    P u -> prev < u -> u <= last_z prev (oks l) -> In u (oks l).
+Proof. exact enumerates_complete. Qed.
+Print Assumptions C06_enumerates_complete.
